@@ -336,3 +336,305 @@ func init() {
 		g.pf("\n")
 	})
 }
+
+// ---------------------------------------------------------------------------------------------
+// websocket (C15)
+//
+//	websocket_write_skel / websocket_WriteControl_skel: ordered events of (*Conn).write and
+//	(*Conn).WriteControl:
+//	    ("acquire","c.mu")          <-c.mu
+//	    ("acquire_timeout","c.mu")  select { case <-c.mu: .. case <-timer.C: return err }
+//	    ("test_err","writeErr")     err := c.writeErr; if err != nil { return err }
+//	    ("read_err","writeErr")     c.writeErr read without the immediate return
+//	    ("set_deadline","")         c.conn.SetWriteDeadline(..)
+//	    ("write","fatal")           c.conn.Write(..) whose error returns c.writeFatal(err)
+//	    ("write","nofatal")         c.conn.Write(..) otherwise
+//	    ("latch_close","ErrCloseSent")  if <type> == CloseMessage { c.writeFatal(ErrCloseSent) }
+//	    ("release","c.mu")          c.mu <- true; a deferred release is placed last (it runs on
+//	                                every return path after the acquire)
+//	websocket_writeFatal_skel:  [("set_if_nil","writeErr")] when the body is lock; if c.writeErr ==
+//	    nil { c.writeErr = err }; unlock
+//	websocket_prepWrite_skel:   events of prepWrite (contains ("test_err_ret","writeErr"): the sticky
+//	    error is what prepWrite returns)
+//	websocket_flushFrame_skel:  [("call","c.write")] -- the data path goes through (*Conn).write
+//	websocket_transport_write_sites: every `<x>.conn.Write(` / `netConn.Write(` in the package as
+//	    (enclosing function, receiver-or-kind)
+func wsMentions(n ast.Node, names ...string) bool {
+	found := false
+	ast.Inspect(n, func(x ast.Node) bool {
+		if se, ok := x.(*ast.SelectorExpr); ok {
+			for _, nm := range names {
+				if se.Sel.Name == nm {
+					found = true
+				}
+			}
+		}
+		return !found
+	})
+	return found
+}
+
+var wsSensitive = []string{"mu", "conn", "writeErr", "writeFatal"}
+
+func exprStr(e ast.Expr) string {
+	if e == nil {
+		return ""
+	}
+	return types.ExprString(e)
+}
+
+func isRecvMu(e ast.Expr) bool {
+	ue, ok := e.(*ast.UnaryExpr)
+	return ok && ue.Op == token.ARROW && exprStr(ue.X) == "c.mu"
+}
+
+func isSendMu(s ast.Stmt) bool {
+	ss, ok := s.(*ast.SendStmt)
+	return ok && exprStr(ss.Chan) == "c.mu"
+}
+
+type wsWalker struct {
+	evs      []skelEv
+	deferred []skelEv
+	errVar   string // variable that holds the value read from c.writeErr, pending its test
+	bad      string
+}
+
+func (w *wsWalker) ev(k, a string) { w.evs = append(w.evs, skelEv{k, a}) }
+
+func (w *wsWalker) isReturnOf(body *ast.BlockStmt, want string) bool {
+	if len(body.List) != 1 {
+		return false
+	}
+	rs, ok := body.List[0].(*ast.ReturnStmt)
+	if !ok || len(rs.Results) == 0 {
+		return false
+	}
+	return exprStr(rs.Results[len(rs.Results)-1]) == want
+}
+
+func (w *wsWalker) stmts(list []ast.Stmt) {
+	for i := 0; i < len(list) && w.bad == ""; i++ {
+		st := list[i]
+		// pending read of writeErr: the very next statement decides what it was (mutex unlock may intervene)
+		switch s := st.(type) {
+		case *ast.ExprStmt:
+			if isRecvMu(s.X) {
+				w.ev("acquire", "c.mu")
+				continue
+			}
+			str := exprStr(s.X)
+			switch {
+			case str == "c.writeErrMu.Lock()" || str == "c.writeErrMu.Unlock()":
+				continue
+			case strings.HasPrefix(str, "c.conn.SetWriteDeadline("):
+				w.ev("set_deadline", "")
+				continue
+			case strings.HasPrefix(str, "c.conn.Write("):
+				w.ev("write", "nofatal")
+				continue
+			}
+			if wsMentions(st, wsSensitive...) {
+				w.bad = "statement touching the lock/transport/sticky error: " + str
+			}
+		case *ast.SelectStmt:
+			acq, tmo := false, false
+			for _, cc := range s.Body.List {
+				c := cc.(*ast.CommClause)
+				if es, ok := c.Comm.(*ast.ExprStmt); ok && isRecvMu(es.X) {
+					acq = true
+					if wsMentions(&ast.BlockStmt{List: c.Body}, "mu", "conn", "writeErr", "writeFatal") {
+						w.bad = "select: lock branch touches shared state"
+					}
+				} else if es, ok := c.Comm.(*ast.ExprStmt); ok && strings.HasPrefix(exprStr(es.X), "<-timer.") {
+					if len(c.Body) == 1 {
+						if _, ok := c.Body[0].(*ast.ReturnStmt); ok {
+							tmo = true
+						}
+					}
+				}
+			}
+			if acq && tmo && len(s.Body.List) == 2 {
+				w.ev("acquire_timeout", "c.mu")
+			} else {
+				w.bad = "select statement of unrecognised shape"
+			}
+		case *ast.DeferStmt:
+			if fl, ok := s.Call.Fun.(*ast.FuncLit); ok && len(fl.Body.List) == 1 && isSendMu(fl.Body.List[0]) {
+				w.deferred = append([]skelEv{{"release", "c.mu"}}, w.deferred...)
+			} else if wsMentions(st, wsSensitive...) {
+				w.bad = "defer touching shared state"
+			}
+		case *ast.SendStmt:
+			if isSendMu(s) {
+				w.ev("release", "c.mu")
+			} else if wsMentions(st, wsSensitive...) {
+				w.bad = "send touching shared state"
+			}
+		case *ast.AssignStmt:
+			if len(s.Rhs) == 1 && exprStr(s.Rhs[0]) == "c.writeErr" && len(s.Lhs) == 1 {
+				w.errVar = exprStr(s.Lhs[0])
+				// look ahead: [c.writeErrMu.Unlock()] if errVar != nil { return errVar }
+				j := i + 1
+				if j < len(list) {
+					if es, ok := list[j].(*ast.ExprStmt); ok && exprStr(es.X) == "c.writeErrMu.Unlock()" {
+						j++
+					}
+				}
+				if j < len(list) {
+					if ifs, ok := list[j].(*ast.IfStmt); ok && ifs.Init == nil && ifs.Else == nil &&
+						exprStr(ifs.Cond) == w.errVar+" != nil" && w.isReturnOf(ifs.Body, w.errVar) {
+						w.ev("test_err", "writeErr")
+						i = j
+						continue
+					}
+				}
+				if j < len(list) {
+					if rs, ok := list[j].(*ast.ReturnStmt); ok && len(rs.Results) == 1 && exprStr(rs.Results[0]) == w.errVar {
+						w.ev("test_err_ret", "writeErr")
+						i = j
+						continue
+					}
+				}
+				w.ev("read_err", "writeErr")
+				continue
+			}
+			if len(s.Rhs) == 1 && strings.HasPrefix(exprStr(s.Rhs[0]), "c.conn.Write(") {
+				errName := exprStr(s.Lhs[len(s.Lhs)-1])
+				kind := "nofatal"
+				if i+1 < len(list) {
+					if ifs, ok := list[i+1].(*ast.IfStmt); ok && ifs.Init == nil && ifs.Else == nil &&
+						exprStr(ifs.Cond) == errName+" != nil" && w.isReturnOf(ifs.Body, "c.writeFatal("+errName+")") {
+						kind = "fatal"
+						i++
+					}
+				}
+				w.ev("write", kind)
+				continue
+			}
+			if wsMentions(st, wsSensitive...) {
+				w.bad = "assignment touching shared state: " + exprStr(s.Rhs[0])
+			}
+		case *ast.IfStmt:
+			cond := exprStr(s.Cond)
+			if s.Init == nil && s.Else == nil && strings.HasSuffix(cond, " == CloseMessage") && len(s.Body.List) == 1 {
+				if es, ok := s.Body.List[0].(*ast.ExprStmt); ok && exprStr(es.X) == "c.writeFatal(ErrCloseSent)" {
+					w.ev("latch_close", "ErrCloseSent")
+					continue
+				}
+			}
+			if s.Init == nil && s.Else == nil && strings.HasPrefix(cond, "len(") && !wsMentions(s.Cond, wsSensitive...) {
+				w.stmts(s.Body.List) // `if len(buf) > 0 { write }`
+				continue
+			}
+			if wsMentions(st, wsSensitive...) {
+				w.bad = "if statement touching shared state: " + cond
+			}
+		case *ast.ForStmt:
+			w.stmts(s.Body.List)
+		case *ast.RangeStmt:
+			w.stmts(s.Body.List)
+		case *ast.ReturnStmt:
+			held := 0
+			for _, e := range w.evs {
+				if e.kind == "acquire" || e.kind == "acquire_timeout" {
+					held++
+				} else if e.kind == "release" {
+					held--
+				}
+			}
+			if held > 0 && len(w.deferred) == 0 {
+				w.bad = "return while holding the lock without a deferred release"
+			}
+			if wsMentions(st, "mu", "conn", "writeFatal") {
+				w.bad = "return expression touching shared state"
+			}
+		default:
+			if wsMentions(st, wsSensitive...) {
+				w.bad = fmt.Sprintf("statement %T touching shared state", st)
+			}
+		}
+	}
+}
+
+func (g *gen) wsFuncSkel(name string, fd *ast.FuncDecl) {
+	w := &wsWalker{}
+	w.stmts(fd.Body.List)
+	evs := append(w.evs, w.deferred...)
+	g.emitSkel(name, evs, w.bad == "", w.bad)
+}
+
+func init() {
+	extraGens = append(extraGens, func(g *gen) {
+		if pkgTag(g.p) != "websocket" {
+			return
+		}
+		g.pf("(* synchronisation skeletons (gen_skel.go) *)\n")
+		seen := map[string]bool{}
+		var sites []skelEv
+		for _, fd := range g.funcDecls() {
+			rn := recvName(fd)
+			full := fd.Name.Name
+			if rn != "" {
+				full = rn + "." + fd.Name.Name
+			}
+			// every transport write call site
+			ast.Inspect(fd.Body, func(n ast.Node) bool {
+				ce, ok := n.(*ast.CallExpr)
+				if !ok {
+					return true
+				}
+				s := exprStr(ce.Fun)
+				if strings.HasSuffix(s, ".conn.Write") || s == "netConn.Write" || strings.HasSuffix(s, ".conn.WriteTo") ||
+					(strings.HasSuffix(s, ".WriteTo") && len(ce.Args) == 1 && strings.HasSuffix(exprStr(ce.Args[0]), ".conn")) {
+					sites = append(sites, skelEv{full, s})
+				}
+				return true
+			})
+			switch full {
+			case "Conn.write":
+				g.wsFuncSkel("websocket_write_skel", fd)
+				seen[full] = true
+			case "Conn.WriteControl":
+				g.wsFuncSkel("websocket_WriteControl_skel", fd)
+				seen[full] = true
+			case "Conn.prepWrite":
+				g.wsFuncSkel("websocket_prepWrite_skel", fd)
+				seen[full] = true
+			case "Conn.writeFatal":
+				ok := false
+				for _, st := range fd.Body.List {
+					if ifs, isIf := st.(*ast.IfStmt); isIf && ifs.Init == nil && ifs.Else == nil &&
+						exprStr(ifs.Cond) == "c.writeErr == nil" && len(ifs.Body.List) == 1 {
+						if as, isAs := ifs.Body.List[0].(*ast.AssignStmt); isAs && as.Tok == token.ASSIGN &&
+							len(as.Lhs) == 1 && exprStr(as.Lhs[0]) == "c.writeErr" {
+							ok = true
+						}
+					} else if as, isAs := st.(*ast.AssignStmt); isAs && len(as.Lhs) == 1 && exprStr(as.Lhs[0]) == "c.writeErr" {
+						ok = false
+						break
+					}
+				}
+				g.emitSkel("websocket_writeFatal_skel", []skelEv{{"set_if_nil", "writeErr"}}, ok, "writeFatal does not keep the first error")
+				seen[full] = true
+			case "messageWriter.flushFrame":
+				calls := 0
+				ast.Inspect(fd.Body, func(n ast.Node) bool {
+					if ce, ok := n.(*ast.CallExpr); ok && exprStr(ce.Fun) == "c.write" {
+						calls++
+					}
+					return true
+				})
+				g.emitSkel("websocket_flushFrame_skel", []skelEv{{"call", "c.write"}}, calls == 1, "flushFrame does not call c.write exactly once")
+				seen[full] = true
+			}
+		}
+		for _, n := range []string{"Conn.write", "Conn.WriteControl", "Conn.prepWrite", "Conn.writeFatal", "messageWriter.flushFrame"} {
+			if !seen[n] {
+				g.emitSkel("websocket_"+strings.Replace(strings.TrimPrefix(n, "Conn."), "messageWriter.", "", 1)+"_skel", nil, false, "function not found")
+			}
+		}
+		g.emitSkel("websocket_transport_write_sites", sites, true, "")
+		g.pf("\n")
+	})
+}
